@@ -3,6 +3,7 @@
   Sections separated by `|`, coefficient lists low-order first.
 
     syn.cauerI | N | D | x         ok <Z at x> <leaves>  |  raise  |  negpower  |  fuelout  |  empty
+    syn.cauerII | N | D | x        same, from the inverse coefficients of D/N
     syn.cfcoeffs | N | D           (as rf.cfcoeffs)
     syn.pattern <form> | c0 cp cm other | x      c? = number or `-` (absent), other = 0/1
                                     ok <Z at x> <leaves>  |  raise  |  empty
@@ -52,6 +53,18 @@ def handle (toks : List String) : Option String :=
         | some n, some d, some x =>
           match cfCoeffs n d with
           | .ok cs => netReply x (cauerI true cs)
+          | .negPower => "negpower"
+          | .fuelOut => "fuelout"
+        | _, _, _ => "bad-op"
+      | _ => "bad-op"
+  | "syn.cauerII" :: "|" :: rest => some <|
+      match splitBar rest with
+      | [n, d, [x]] =>
+        match parseList n, parseList d, CQ.parse x with
+        | some n, some d, some x =>
+          -- coefficients of the ADMITTANCE D/N
+          match cfiCoeffs d n with
+          | .ok cs => netReply x (cauerII true true cs)
           | .negPower => "negpower"
           | .fuelOut => "fuelout"
         | _, _, _ => "bad-op"
